@@ -4,6 +4,7 @@
     model of Model/Kick.v); everything else is searched with sanitizers (lib/props/C17.py).
     Only statements closed by [exact]; proofs in Proofs/BoundsP.v.  DESIGN.md 5/C17. *)
 From Coq Require Import List ZArith QArith Qcanon Qround Bool.
+From Inovesa Require Model.Pow2Ops Gen.Gen_Pow2 Proofs.Pow2GenP.
 From Inovesa Require Import Base.FieldKit Base.Float32 Model.Kick Model.Bounds
   Proofs.KickP Proofs.BoundsP.
 Import ListNotations.
@@ -265,6 +266,19 @@ Theorem upper_power_of_two_outside_domain :
   upper_power_of_two 0 = 0 /\ upper_power_of_two (2 ^ 63 + 1) = 0.
 Proof. exact upper_power_of_two_wraps. Qed.
 Print Assumptions upper_power_of_two_outside_domain.
+
+(** 7'. the same three facts about the operation list read from the SOURCE of vfps::upper_power_of_two on every run
+    (Gen/Gen_Pow2.v): a dropped or changed stage of the cascade breaks [gen_ops_accepted] (and rounds some length down,
+    see [Pow2GenP.short_cascade_rejected]: a padded buffer shorter than the train). *)
+Theorem upper_power_of_two_generated :
+  forall v, Pow2Ops.run_uops Gen_Pow2.gen_upow2_ops v = upper_power_of_two v.
+Proof. exact Pow2GenP.gen_upow2_is_model. Qed.
+Print Assumptions upper_power_of_two_generated.
+
+Theorem upper_power_of_two_generated_bounds :
+  forall v, 1 <= v <= 2 ^ 63 -> v <= Pow2Ops.run_uops Gen_Pow2.gen_upow2_ops v < 2 * v.
+Proof. exact Pow2GenP.gen_upow2_ge. Qed.
+Print Assumptions upper_power_of_two_generated_bounds.
 
 (** ** Text start distribution (makePSFromTXT, src/PS/PhaseSpaceFactory.cpp): the deposit
     [ps[0][x][y] += ...] of every particle the reader accepts - for every pair of [lround]
